@@ -1000,7 +1000,7 @@ def run(ctx):
 
 def replay(ctx, path):
     import replaylib
-    r = replaylib.load("C20", path)
+    r = replaylib.load(ctx, path)
     if "case" not in r:
         return replaylib.obligations("C20", run, r, path)
     okb, log, bd = vlib.c_build("rel")
